@@ -60,7 +60,8 @@ def run(ck):
     def cover():
         consts = {"MaxPeer": 3 if quick else 4, "MaxCalls": 3, "BUG_SecondClose": "FALSE"}
         cfg = vlib.cfg_with(sw, "WsSessionImpl_mc.cfg", consts)
-        r = vlib.tlc(sw, "WsSessionImpl", cfg, workers=1, timeout=1500, env={"JAVA_TOOL_OPTIONS": "-Xmx4g"})
+        # every EDGE line is a complete history, so the order in which workers print them does not matter
+        r = vlib.tlc(sw, "WsSessionImpl", cfg, workers=1 if quick else 4, timeout=3000, env={"JAVA_TOOL_OPTIONS": "-Xmx4g"})
         if not r.ok:
             raise vlib.Inconclusive("WsSessionImpl cover: %s\n%s" % (r.violated or r.error, r.tail()))
         ck.add_tlc("WsSessionImpl transition cover", r, consts)
@@ -86,7 +87,7 @@ def run(ck):
     def count():
         consts = {"MaxPeer": 5, "MaxCalls": 4, "BUG_SecondClose": "FALSE"}
         cfg = vlib.cfg_with(sw, "WsSessionImpl_count.cfg", consts)
-        r = vlib.tlc(sw, "WsSessionImpl", cfg, workers=3 if quick else max(4, vlib.NCPU - 6), timeout=1500, env={"JAVA_TOOL_OPTIONS": "-Xmx8g"})
+        r = vlib.tlc(sw, "WsSessionImpl", cfg, workers=3 if quick else max(4, vlib.NCPU - 8), timeout=3000, env={"JAVA_TOOL_OPTIONS": "-Xmx8g"})
         if not r.ok:
             raise vlib.Inconclusive("WsSessionImpl exhaustive: %s\n%s" % (r.violated or r.error, r.tail()))
         ck.add_tlc("WsSessionImpl exhaustive", r, consts)
@@ -103,8 +104,8 @@ def run(ck):
     def sim(k):
         consts = {"MaxPeer": 5, "MaxCalls": 4, "BUG_SecondClose": "FALSE"}
         cfg = vlib.cfg_with(sw, "WsSessionImpl_sim.cfg", consts)
-        n = 1500 if quick else 20000
-        r = vlib.tlc(sw, "WsSessionImpl", cfg, workers=1, simulate=n, depth=12, seed=ck.seed * 1000 + k, timeout=1500, env={"JAVA_TOOL_OPTIONS": "-Xmx4g"})
+        n = 1500 if quick else 10000
+        r = vlib.tlc(sw, "WsSessionImpl", cfg, workers=1, simulate=n, depth=12, seed=ck.seed * 1000 + k, timeout=3000, env={"JAVA_TOOL_OPTIONS": "-Xmx4g"})
         if r.violated or (r.error and "timeout" in r.error):
             raise vlib.Inconclusive("WsSessionImpl simulation: %s\n%s" % (r.violated or r.error, r.tail()))
         ck.add_tlc("WsSessionImpl random simulation", r, consts, exhaustive=False)
